@@ -295,6 +295,155 @@ def gen_consts():
     return "\n".join(out) + "\n"
 
 
+# ---- geometry: the pure float expressions of RectangularRegion.py / CircularRegion.py are turned
+# into Lean definitions over the model's arithmetic classes; ERP/Lemmas/GenGeometry.lean proves them
+# equal to the hand-written model, so a change to any operator or operand there breaks a proof.
+_CMP = {ast.Lt: "<", ast.LtE: "≤", ast.Gt: ">", ast.GtE: "≥"}
+_BIN = {ast.Add: "+", ast.Sub: "-", ast.Mult: "*", ast.Div: "/"}
+
+
+class _Geo(object):
+    def __init__(self, cls, self_attrs):
+        self.cls = cls
+        self.self_attrs = self_attrs     # attribute names of `self`, in parameter order
+        self.locals = set()
+
+    def ex(self, n):
+        if isinstance(n, ast.Name):
+            if n.id in self.locals:
+                return n.id
+            raise TranslateError("geometry: free name %s in %s" % (n.id, self.cls))
+        if isinstance(n, ast.Attribute) and isinstance(n.value, ast.Name):
+            if n.value.id == "self" and n.attr in self.self_attrs:
+                return n.attr
+            if n.value.id == "otherRegion":
+                return "o_" + n.attr
+            raise TranslateError("geometry: attribute %s.%s" % (n.value.id, n.attr))
+        if isinstance(n, ast.BinOp) and type(n.op) in _BIN:
+            return "(%s %s %s)" % (self.ex(n.left), _BIN[type(n.op)], self.ex(n.right))
+        if isinstance(n, ast.Compare) and len(n.ops) == 1 and type(n.ops[0]) in _CMP:
+            return "decide (%s %s %s)" % (self.ex(n.left), _CMP[type(n.ops[0])], self.ex(n.comparators[0]))
+        if isinstance(n, ast.BoolOp):
+            op = " && " if isinstance(n.op, ast.And) else " || "
+            return "(" + op.join(self.ex(v) for v in n.values) + ")"
+        if isinstance(n, ast.Call) and isinstance(n.func, ast.Attribute) and isinstance(n.func.value, ast.Name):
+            if n.func.value.id == "math" and n.func.attr == "hypot" and len(n.args) == 2 and not n.keywords:
+                return "(MathOps.hypot %s %s)" % (self.ex(n.args[0]), self.ex(n.args[1]))
+            if n.func.value.id == "self" and n.func.attr == "containsPoint" and len(n.args) == 2 \
+                    and not n.keywords:
+                return "(%sContainsPoint %s %s %s)" % (self.cls, " ".join(self.self_attrs),
+                                                       self.ex(n.args[0]), self.ex(n.args[1]))
+        raise TranslateError("geometry: cannot translate %s" % ast.dump(n)[:120])
+
+    def body(self, stmts):
+        """[Assign*; Return] -> nested lets"""
+        stmts = [s for s in stmts if not (isinstance(s, ast.Expr) and isinstance(s.value, ast.Constant))
+                 and not isinstance(s, ast.ImportFrom)]
+        out = []
+        for st in stmts[:-1]:
+            if isinstance(st, ast.Assign) and len(st.targets) == 1 and isinstance(st.targets[0], ast.Name):
+                out.append("let %s := %s" % (st.targets[0].id, self.ex(st.value)))
+                self.locals.add(st.targets[0].id)
+            else:
+                raise TranslateError("geometry: statement %s" % ast.dump(st)[:120])
+        if not isinstance(stmts[-1], ast.Return):
+            raise TranslateError("geometry: no return in %s" % self.cls)
+        out.append(self.ex(stmts[-1].value))
+        return "\n  ".join(out)
+
+
+def _is_instance_test(test, cls):
+    return (isinstance(test, ast.Call) and isinstance(test.func, ast.Name) and test.func.id == "isinstance"
+            and len(test.args) == 2 and isinstance(test.args[0], ast.Name) and test.args[0].id == "otherRegion"
+            and isinstance(test.args[1], ast.Name) and test.args[1].id == cls)
+
+
+def gen_geometry():
+    attrs = {"rect": ["x1", "y1", "x2", "y2"], "circle": ["cx", "cy", "r"]}
+    files = {"rect": ("RectangularRegion.py", "RectangularRegion"), "circle": ("CircularRegion.py", "CircularRegion")}
+    other = {"RectangularRegion": "rect", "CircularRegion": "circle"}
+    out = ["import ERP.Basic",
+           "/-! Generated by harness/translate.py from RectangularRegion.py / CircularRegion.py — do not edit. -/",
+           "namespace ERP.Gen", "section",
+           "variable {α : Type} [Add α] [Sub α] [LT α] [LE α] [DecidableLT α] [DecidableLE α] [MathOps α]", ""]
+    defs = {}
+    for kind in ("rect", "circle"):
+        fn, cname = files[kind]
+        tree = ast.parse(_src(fn))
+        cls = [n for n in tree.body if isinstance(n, ast.ClassDef) and n.name == cname]
+        if len(cls) != 1:
+            raise TranslateError("geometry: class %s not found" % cname)
+        funcs = {n.name: n for n in cls[0].body if isinstance(n, ast.FunctionDef)}
+        for need in ("containsPoint", "containsRegion", "__init__"):
+            if need not in funcs:
+                raise TranslateError("geometry: %s.%s not found" % (cname, need))
+        # containsPoint(self, x, y)
+        f = funcs["containsPoint"]
+        if [a.arg for a in f.args.args] != ["self", "x", "y"]:
+            raise TranslateError("geometry: signature of %s.containsPoint" % cname)
+        g = _Geo(kind, attrs[kind]); g.locals = {"x", "y"}
+        defs[kind + "ContainsPoint"] = "def %sContainsPoint (%s x y : α) : Bool :=\n  %s" % (
+            kind, " ".join(attrs[kind]), g.body(f.body))
+        # containsRegion(self, otherRegion): isinstance chain ending in raise
+        f = funcs["containsRegion"]
+        stmts = [s_ for s_ in f.body if isinstance(s_, ast.If)]
+        if len(stmts) != 1:
+            raise TranslateError("geometry: shape of %s.containsRegion" % cname)
+        st = stmts[0]
+        seen = []
+        while True:
+            hit = [c for c in other if _is_instance_test(st.test, c)]
+            if len(hit) != 1:
+                raise TranslateError("geometry: isinstance test in %s.containsRegion" % cname)
+            ok = other[hit[0]]
+            seen.append(ok)
+            g = _Geo(kind, attrs[kind])
+            defs["%sContains%s" % (kind, ok.capitalize())] = "def %sContains%s (%s %s : α) : Bool :=\n  %s" % (
+                kind, ok.capitalize(), " ".join(attrs[kind]), " ".join("o_" + a for a in attrs[ok]), g.body(st.body))
+            if len(st.orelse) == 1 and isinstance(st.orelse[0], ast.If):
+                st = st.orelse[0]
+            elif len(st.orelse) == 1 and isinstance(st.orelse[0], ast.Raise):
+                break
+            else:
+                raise TranslateError("geometry: tail of %s.containsRegion" % cname)
+        if sorted(seen) != ["circle", "rect"]:
+            raise TranslateError("geometry: branches of %s.containsRegion: %s" % (cname, seen))
+        if kind == "rect":
+            # the constructor orders the corners: `if (b < a): a, b = b, a`
+            f = funcs["__init__"]
+            swaps = []
+            for n in ast.walk(f):
+                if isinstance(n, ast.If) and len(n.body) == 1 and not n.orelse and isinstance(n.body[0], ast.Assign) \
+                        and isinstance(n.body[0].targets[0], ast.Tuple) and isinstance(n.body[0].value, ast.Tuple):
+                    tg = [e.id for e in n.body[0].targets[0].elts]
+                    vs = [e.id for e in n.body[0].value.elts]
+                    swaps.append((n.lineno, n.test, tg, vs))
+            swaps.sort(key=lambda t: t[0])
+            g = _Geo(kind, []); g.locals = {"x1", "y1", "x2", "y2"}
+            lines = []
+            for (_, test, tg, vs) in swaps:
+                if len(tg) != 2 or set(tg) != set(vs) or not set(tg) <= g.locals:
+                    raise TranslateError("geometry: corner ordering statement")
+                lines.append("let (%s, %s) := if %s then (%s, %s) else (%s, %s)" % (
+                    tg[0], tg[1], g.ex(test).replace("decide ", "", 1), vs[0], vs[1], tg[0], tg[1]))
+            # what is stored: self.<attr> = <name> after the ordering
+            stored = {}
+            for n in ast.walk(f):
+                if isinstance(n, ast.Assign) and isinstance(n.targets[0], ast.Attribute) \
+                        and isinstance(n.targets[0].value, ast.Name) and n.targets[0].value.id == "self" \
+                        and isinstance(n.value, ast.Name) and n.value.id in g.locals:
+                    stored[n.targets[0].attr] = n.value.id
+            if sorted(stored) != ["x1", "x2", "y1", "y2"]:
+                raise TranslateError("geometry: attributes stored by RectangularRegion.__init__: %s" % stored)
+            lines.append("(%s, %s, %s, %s)" % (stored["x1"], stored["y1"], stored["x2"], stored["y2"]))
+            defs["rectOrder"] = "def rectOrder (x1 y1 x2 y2 : α) : α × α × α × α :=\n  " + "\n  ".join(lines)
+    for name in ("rectContainsPoint", "circleContainsPoint", "rectContainsRect", "rectContainsCircle",
+                 "circleContainsRect", "circleContainsCircle", "rectOrder"):
+        out.append(defs[name]); out.append("")
+    out += ["end", "end ERP.Gen", ""]
+    return "\n".join(out)
+
+
 def write_if_changed(path, text):
     old = None
     if os.path.exists(path):
@@ -310,7 +459,7 @@ def main(outdir):
     import warnings
     warnings.simplefilter("ignore")
     changed = []
-    for name, fn in (("Regexes.lean", gen_regexes), ("Consts.lean", gen_consts)):
+    for name, fn in (("Regexes.lean", gen_regexes), ("Consts.lean", gen_consts), ("Geometry.lean", gen_geometry)):
         if write_if_changed(os.path.join(outdir, name), fn()):
             changed.append(name)
     print("translate: ok; changed: %s" % (", ".join(changed) or "nothing"))
